@@ -401,4 +401,32 @@ theorem ringOK_of_simple {r : List Pt} (h : ringSimple r = true) : Geo.Proofs.Lo
   have := dedup_length_le r
   omega
 
+/-- what `polyValid` says about single rings and about each hole against the shell -/
+theorem polyValid_unpack {q : Poly} (h : polyValid q = true) :
+    ringSimple q.ext = true ∧ (∀ r ∈ q.ints, ringSimple r = true) ∧
+      (∀ r ∈ q.ints, (relateParts (polyOf r) (polyOf q.ext)).be = .empty) := by
+  unfold polyValid polyValid.polyValidRings at h
+  simp only [Bool.and_eq_true, List.all_eq_true, beq_iff_eq] at h
+  obtain ⟨⟨⟨⟨h1, h2⟩, h3⟩, _⟩, _⟩ := h
+  exact ⟨h1, h2, fun r hr => (h3 r hr).1.2⟩
+
+/-- **H1 from validity**: in an OGC-valid polygon no point of a hole ring is outside the shell ring
+(for geo's own `coord_pos_relative_to_ring`). -/
+theorem hole_ring_in_shell {q : Poly} (hv : polyValid q = true) {r : List Pt} (hr : r ∈ q.ints)
+    {p : Pt} (hp : onAnySeg p (segs r) = true) : ringPos p q.ext ≠ .outside := by
+  obtain ⟨h1, _, h3⟩ := polyValid_unpack hv
+  have hok := ringOK_of_simple h1
+  rw [Geo.Proofs.Loc.ringPos_eq_ringLoc p q.ext hok, Ne, Geo.Proofs.Loc.ringLoc_outside_iff]
+  have := hole_point_not_outside hok.1 hok.2 (h3 r hr) hp
+  rwa [Ne, locate_polyOf_outside_iff q.ext hok.2] at this
+
+/-- `coordinate_position` of an OGC-valid polygon is the specification's location at every point
+that is not strictly inside one hole and on the ring of another one. -/
+theorem coordPos_polygon_valid (q : Poly) (p : Pt) (hv : polyValid q = true)
+    (H2 : ∀ h ∈ q.ints, ∀ h' ∈ q.ints, ringPos p h = .inside → onAnySeg p (segs h') = false) :
+    coordPos (.polygon q) p = locate (.polygon q) p := by
+  obtain ⟨h1, h2, _⟩ := polyValid_unpack hv
+  exact Geo.Proofs.Loc.coordPos_polygon_eq_locate_at q p (ringOK_of_simple h1)
+    (fun h hh => ringOK_of_simple (h2 h hh)) (fun h hh hp => hole_ring_in_shell hv hh hp) H2
+
 end Geo.Proofs.C02Q
